@@ -16,12 +16,15 @@ observe(case) -> trace record for Trace_C13.tla.  After EVERY step:
   nsnew   attributes of `unyt` that did not exist at import
   conv    conversions between built-in units through the default registry
 
-The process-wide state (default registry dicts, default_unit_symbol_lut, unit_system_registry,
+After every case every module-level dict/list/set of the library (also state a changed library adds) is
+restored, and the process-wide state (default registry dicts, default_unit_symbol_lut, unit_system_registry,
 attributes of `unyt`, registry pointers of exported units, lru memos) is restored after every case
 and verified pristine; a case can therefore never leak into a later one."""
 
 import copy
 import hashlib
+import json
+import os
 import pickle
 from fractions import Fraction
 
@@ -84,6 +87,22 @@ def setup(common=None):
         nq_regs=[v.units.registry for _, v in ns_quants],
         nusys=0,
     )
+    # every module-level mutable container of the library (also ones a changed library adds, e.g. a memo of
+    # restored registries): contents are restored after every case
+    import sys as _sys
+
+    conts = []
+    seen_ids = set()
+    for name, mod in sorted(_sys.modules.items()):
+        if not (name == "unyt" or name.startswith("unyt.")) or name.startswith("unyt.tests") or mod is None:
+            continue
+        for k, v in sorted(vars(mod).items(), key=lambda kv: kv[0]):
+            if type(v) in (dict, list, set) or type(v).__name__ == "OrderedDict":
+                if id(v) in seen_ids or k.startswith("__"):
+                    continue
+                seen_ids.add(id(v))
+                conts.append((name + "." + k, v, v.copy()))
+    _U["containers"] = conts
     _U["ns_parts"] = _nsparts()
     _U["ns_pristine"] = _nsdig()
 
@@ -235,14 +254,19 @@ def _snapshot_all(R):
 
 
 def _new(R, e, reg):
-    """Register the registry a constructor returned under the id the history gave it."""
+    """Register the registry a constructor returned under the id the history gave it.
+
+    A constructor that hands out a registry object that already exists (instead of a new one) still gets the
+    slot: the history goes on talking to it under the new id, so the frame predicate sees the sharing."""
     n = e["new"]
     known = _idof(R, reg)
-    if known >= 0:
+    if known >= 0 and known == n:
         return {"k": "same", "r": known}
-    if n < len(R) and R[n] is None:
+    if 0 < n < len(R) and R[n] is None:
         R[n] = reg
         return {"k": "new", "r": n}
+    if known >= 0:
+        return {"k": "same", "r": known}
     return {"k": "unexpected-registry"}
 
 
@@ -376,10 +400,23 @@ def _restore_process():
     for k, u in D._unit_object_cache.items():
         if u.registry is not U["D_cache_regs"][k]:
             u.registry = U["D_cache_regs"][k]
+    for _name, obj, snap in U.get("containers", ()):
+        if obj is D.lut or obj is D._unit_object_cache or obj is DL or obj is usr:
+            continue
+        try:
+            same = len(obj) == len(snap) and obj == snap
+        except Exception:  # noqa: BLE001
+            same = False
+        if not same:
+            if isinstance(obj, list):
+                obj[:] = snap
+            else:
+                obj.clear()
+                obj.update(snap)
     _clear_lru()
 
 
-def observe(case):
+def _observe(case):
     U = _U
     _clear_lru()
     R = [U["D"]] + [None] * U["max_regs"]
@@ -392,3 +429,70 @@ def observe(case):
     if not (after["nsdig"] == U["ns_pristine"] and after["dkeep"] and after["dlkeep"] and after["usyskeep"] and not after["nsnew"] and after["dnewother"] == 0 and not after["dnew"]):
         raise RuntimeError("process-wide state could not be restored: " + str({k: v for k, v in after.items() if k != "conv"}))
     return {"init": init, "ev": ev}
+
+
+_WARM = [
+    {"op": "new", "r": 0, "new": 1, "defs": True, "usys": "mks"},
+    {"op": "add", "r": 1, "sym": "foo", "scale": 2, "pfx": True},
+    {"op": "unit", "r": 1, "str": "kfoo/km"},
+    {"op": "unit", "r": 1, "str": "foo*m"},
+    {"op": "contains", "r": 1, "sym": "km"},
+    {"op": "json", "r": 1, "new": 2},
+    {"op": "unpickle", "r": 1, "new": 3, "str": "kfoo"},
+    {"op": "binop", "fn": "mul", "r": 1, "str": "foo", "r2": 0, "str2": "m", "warm": False},
+    {"op": "binop", "fn": "div", "r": 2, "str": "kfoo", "r2": 1, "str2": "m", "warm": False},
+    {"op": "binop", "fn": "add", "r": 3, "str": "foo", "r2": 1, "str2": "m", "warm": False},
+    {"op": "convert", "how": "to", "r": 1, "str": "m", "r2": 0, "str2": "km"},
+    {"op": "rebind", "r": 1, "r2": 2, "str": "m", "bypass": False},
+    {"op": "modify", "r": 2, "sym": "m", "scale": 4},
+    {"op": "remove", "r": 3, "sym": "kfoo"},
+]
+_WARM2 = [
+    {"op": "deepcopy", "r": 0, "new": 1},
+    {"op": "unitcopy", "r": 1, "new": 2, "str": "m", "deep": True},
+    {"op": "lutcopy", "r": 0, "new": 3},
+    {"op": "add", "r": 0, "sym": "foo", "scale": 2, "pfx": True},
+    {"op": "remove", "r": 0, "sym": "km"},
+]
+
+
+def _warm():
+    """Run two representative histories in the parent so that the forked children inherit warm parsing caches
+    (the parent is restored and verified pristine afterwards, like after any case)."""
+    _observe({"h": _WARM})
+    _observe({"h": _WARM2})
+
+
+def observe(case):
+    """Run one history.  With C13_FORK=1 in a forked child of the (pristine) worker process (perfect isolation,
+    about +15 ms per case); by default in-process, where the default registry, the exported namespace, every
+    module-level dict/list/set of the library (also ones a changed library adds) and every lru memo are restored
+    after each case."""
+    if not os.environ.get("C13_FORK") or not hasattr(os, "fork"):
+        return _observe(case)  # default: in-process; restore + verification after every case (see _restore_process)
+    if not _U.get("warm"):
+        _warm()
+        _U["warm"] = True
+    rfd, wfd = os.pipe()
+    pid = os.fork()
+    if pid == 0:
+        code = 0
+        try:
+            os.close(rfd)
+            try:
+                data = json.dumps(_observe(case))
+            except BaseException as ex:  # noqa: BLE001
+                data = json.dumps({"_error": type(ex).__name__ + ": " + str(ex)[:300]})
+            with os.fdopen(wfd, "w") as f:
+                f.write(data)
+        except BaseException:  # noqa: BLE001
+            code = 1
+        finally:
+            os._exit(code)
+    os.close(wfd)
+    with os.fdopen(rfd) as f:
+        data = f.read()
+    os.waitpid(pid, 0)
+    if not data:
+        return {"_error": "replay child died without a result"}
+    return json.loads(data)
